@@ -12,6 +12,7 @@
 From Coq Require Import List Arith Bool.
 From AM Require Import Rust.Ast Rust.Syntax Rust.Script Gen.HotReloading Gen.Deps
   Proofs.AnsInv Proofs.AnsR Proofs.AnsC Proofs.AnsWork Proofs.Dfs Tie.Answers Tie.Graph.
+Require AM.Ref.Answers AM.Proofs.AnsBridge.
 Import ListNotations.
 
 (* 1. The code has the protocol the theorems are about. *)
@@ -90,5 +91,24 @@ Theorem C08_old_visit_diverges : forall fuel,
 Proof. exact visit_diverges_on_cycle. Qed.
 
 (* non-vacuity: the initial state is reachable with 3 callers not done *)
+(* The same for the executable model (Ref/Answers.v: callers as a list, [step] a function, the model
+   the refutation of the protocol before the repair of D1 runs on): every step it takes is a step of
+   the relational model above and vice versa, so for every number of callers and every schedule --
+   fair or not -- no state it reaches is deadlocked, it takes at most work_bound n steps, and when
+   nothing is enabled any more every caller has returned. *)
+Theorem C08_executable_model_never_deadlocks : forall n sched,
+  AM.Ref.Answers.deadlocked true (AM.Ref.Answers.run true sched (AM.Ref.Answers.init n)) = false.
+Proof. exact AM.Proofs.AnsBridge.exec_no_deadlock. Qed.
+
+Theorem C08_executable_model_bounded_work : forall n sched,
+  AM.Proofs.AnsBridge.taken sched (AM.Ref.Answers.init n) <= work_bound n.
+Proof. exact AM.Proofs.AnsBridge.exec_bounded_work. Qed.
+
+Theorem C08_executable_model_rests_only_when_all_returned : forall n sched,
+  let s := AM.Ref.Answers.run true sched (AM.Ref.Answers.init n) in
+  (forall tid, In tid (AM.Ref.Answers.tids s) -> AM.Ref.Answers.enabled true s tid = false) ->
+  AM.Ref.Answers.all_done s = true.
+Proof. exact AM.Proofs.AnsBridge.exec_quiescent_means_all_returned. Qed.
+
 Example C08_nonvacuous : stepsN 3 init init /\ (exists i, i < 3 /\ cs init i <> CDone).
 Proof. split; [constructor|]. exists 0. split; [auto|discriminate]. Qed.
